@@ -6,7 +6,7 @@ set -u
 prop="$1"; src="$2"; name="$3"; tier="${4:-quick}"; cprop=${prop:0:3}
 export GOFLAGS=-mod=mod GOPROXY=off GOSUMDB=off GOTOOLCHAIN=local
 cd /repo; git diff --quiet || { echo "repo dirty"; exit 3; }
-dst=/verif/seeded/$name; mkdir -p $dst; cp $src/patch.diff $src/meta.json $dst/ 2>/dev/null; cp $src/demo* $dst/ 2>/dev/null
+dst=/verif/seeded/$name; mkdir -p $dst; cp $src/patch.diff $src/meta.json $dst/ 2>/dev/null; for d in $src/demo*; do cp "$d" "$dst/$(basename $d).txt" 2>/dev/null; done
 demo=$(ls $src/demo_test.go 2>/dev/null)
 place=$(grep -o -m1 '[a-zA-Z0-9_/.]*zz_demo[a-z0-9_]*_test.go' $src/demo_test.go | head -1)
 [ -z "$place" ] && place=zz_demo_test.go
